@@ -298,7 +298,7 @@ func (server *GripServer) BulkAdd(stream gripql.Edit_BulkAddServer) error {
 				log.WithFields(log.Fields{"graph": element.Graph, "error": err}).Errorf("BulkAdd: vertex validation failed")
 			} else {
 				insertCount++
-				elementStream <- gdbi.NewGraphElement(element)
+				elementStream <- &gdbi.GraphElement{Graph: element.Graph, Vertex: gdbi.NewElementFromVertex(element.Vertex)}
 			}
 		}
 
@@ -312,7 +312,7 @@ func (server *GripServer) BulkAdd(stream gripql.Edit_BulkAddServer) error {
 				log.WithFields(log.Fields{"graph": element.Graph, "error": err}).Errorf("BulkAdd: edge validation failed")
 			} else {
 				insertCount++
-				elementStream <- gdbi.NewGraphElement(element)
+				elementStream <- &gdbi.GraphElement{Graph: element.Graph, Edge: gdbi.NewElementFromEdge(element.Edge)}
 			}
 		}
 	}
